@@ -221,7 +221,6 @@ func W[T any](p *T, site string) *T {
 	return p
 }
 
-
 func mapAddr(m any) uintptr {
 	v := reflect.ValueOf(m)
 	if v.Kind() != reflect.Map || v.IsNil() {
